@@ -181,6 +181,8 @@ class Module:
                 for t in st.targets:
                     if isinstance(t, ast.Name):
                         self.globals[t.id] = st.value
+            elif isinstance(st, ast.AnnAssign) and isinstance(st.target, ast.Name) and st.value is not None:
+                self.globals[st.target.id] = st.value
             elif isinstance(st, ast.Try):
                 self._collect(st.body, st)
                 for h in st.handlers:
